@@ -431,3 +431,73 @@ def run_overtake(case):
     res.nontrivial = case['victim_after_actor']
     res.sample = {'log': log}
     return res
+
+
+# --------------------------------------------------------------------------
+# an on_add delivered by create_entity/add_component disables dispatching:
+# the callbacks of the components that follow are postponed, not lost and
+# not delivered while disabled
+# --------------------------------------------------------------------------
+
+def gen_disable(rng):
+    n = rng.randint(2, 4)
+    return {'scenario': 'disable_in_on_add', 'ncomp': n,
+            'actor': rng.randrange(n), 'then': rng.choice(
+                ['enable', 'add_then_enable', 'remove_then_enable'])}
+
+
+def run_disable(case):
+    desper = import_desper()
+    res = Res()
+    w = desper.World()
+    log = []
+
+    def on_add(self, entity, world):
+        log.append((self.uid, 'add', w.dispatch_enabled))
+        if self.uid == case['actor']:
+            w.dispatch_enabled = False
+
+    def on_remove(self, entity, world):
+        log.append((self.uid, 'remove', w.dispatch_enabled))
+
+    classes = [desper.event_handler('on_add', 'on_remove')(
+        type(f'D{i}', (), {'on_add': on_add, 'on_remove': on_remove}))
+        for i in range(case['ncomp'] + 1)]
+    comps = []
+    for i in range(case['ncomp']):
+        c = classes[i]()
+        c.uid = i
+        comps.append(c)
+    e = w.create_entity(*comps)
+    res.stats['disable_scenarios'] += 1
+    attached = set(range(case['ncomp']))
+    if case['then'] == 'add_then_enable':
+        extra = classes[-1]()
+        extra.uid = case['ncomp']
+        comps.append(extra)
+        w.add_component(e, extra)
+        attached.add(extra.uid)
+    elif case['then'] == 'remove_then_enable':
+        victim = comps[-1] if comps[-1].uid != case['actor'] else comps[0]
+        w.remove_component(e, type(victim))
+        attached.discard(victim.uid)
+    while_disabled = [x for x in log if not x[2]]
+    if while_disabled:
+        res.div(0, 'callback-while-disabled', 'a lifecycle callback was '
+                'delivered after an earlier on_add of the same call had '
+                'disabled dispatching', 'postponed',
+                while_disabled[:3])
+        return res
+    w.dispatch_enabled = True
+    for c in comps:
+        seq = [k for u, k, _ in log if u == c.uid]
+        want = ['add'] if c.uid in attached else ['add', 'remove']
+        res.stats['callback_sequences_checked'] += 1
+        if seq != want:
+            res.div(1, 'postponed-callbacks', f'component {c.uid}: lifecycle '
+                    'callbacks after dispatching was enabled again',
+                    want, seq)
+            return res
+    res.nontrivial = case['actor'] < case['ncomp'] - 1
+    res.sample = {'log': log}
+    return res
